@@ -205,9 +205,11 @@ Fail(s, env) == WithErr(s, "error", Msg, env)
 \* ------------------------------------------------------------- checkLimits
 \* returns <<state', ok>>; one step is charged, then the budget, then the context poll
 \* (the first cfg.noctx evaluations of a history are made through the context-less entry point with no
-\* step limit: checkLimits then returns at once and nothing is counted)
+\* step limit: checkLimits then returns at once and nothing is counted.  With cfg.ctxfirst = k > 0 it is the other
+\* way round: evaluations 1..k carry a context, which is cancelled once evaluation k has returned, and the later
+\* ones are context-less - what was defined under the dead context must work all the same)
 Charge(s, env) ==
-  IF s.evi <= s.cfg.noctx /\ s.cfg.budget = 0 THEN <<s, TRUE>> ELSE
+  IF (s.evi <= s.cfg.noctx \/ (s.cfg.ctxfirst > 0 /\ s.evi > s.cfg.ctxfirst)) /\ s.cfg.budget = 0 THEN <<s, TRUE>> ELSE
   LET s1 == [s EXCEPT !.steps = @ + 1] IN
   IF s1.cfg.budget > 0 /\ s1.steps > s1.cfg.budget
   THEN <<WithErr(s1, "step-limit-exceeded", Msg, env), FALSE>>
@@ -449,15 +451,19 @@ FlatCells(ls) == IF Len(ls) = 0 THEN <<>> ELSE ls[1].c \o FlatCells(Rest(ls))
 \* equal?: structural equality of data (quoting flags and source positions ignored)
 RECURSIVE ValEqual(_, _)
 ValEqual(a, b) ==
-  IF a.t # b.t THEN FALSE
+  \* numbers are compared by value across int and float (a float the machine does not track is never known equal)
+  IF a.t \in {"int", "float"} /\ b.t \in {"int", "float"}
+  THEN a.s # "?" /\ b.s # "?" /\ (IF a.t = "int" THEN 16 * a.n ELSE a.n) = (IF b.t = "int" THEN 16 * b.n ELSE b.n)
+  ELSE IF a.t # b.t THEN FALSE
   ELSE CASE a.t = "int" -> a.n = b.n
          [] a.t = "str" -> a.s = b.s
          [] a.t = "sym" -> a.s = b.s /\ a.p = b.p
-         [] a.t \in {"list", "quote", "vec"} -> Len(a.c) = Len(b.c) /\ \A j \in 1..Len(a.c) : ValEqual(a.c[j], b.c[j])
+         [] a.t \in {"list", "vec"} -> Len(a.c) = Len(b.c) /\ \A j \in 1..Len(a.c) : ValEqual(a.c[j], b.c[j])
          \* maps: same key NAMES (a string and a symbol spelling the same name are one key) and equal values
          [] a.t = "map" -> Len(a.c) = Len(b.c) /\ \A j \in 1..Len(a.c) : a.c[j].c[1].s = b.c[j].c[1].s /\ ValEqual(a.c[j].c[2], b.c[j].c[2])
          [] a.t = "float" -> a.s # "?" /\ b.s # "?" /\ a.n = b.n
-         [] a.t = "fun" -> a.n = b.n /\ (a.n > 0 \/ a.s = b.s)
+         \* functions and quote objects have no structural equality: never equal, not even to themselves - and so is
+         \* every container that holds one, compared with itself or with anything else
          [] OTHER -> FALSE
 
 \* ---- sorted-maps.  Keys are strings or symbols, identified by NAME; entries are kept in the sorted order of the names.
